@@ -56,7 +56,7 @@ Record obs := mkObs {
   o_stopinst : amap (option iid);   (* thread -> instance whose status its stop execution is about to read *)
   o_instop : amap iid;              (* thread -> instance it is executing stopProcess on (stop_enter .. stop_return) *)
   o_spawning : bool;                (* Run() is inside its spawn loop *)
-  o_api_sd_first : bool;            (* a shutdown requested through the API began before any exit_on_* trigger *)
+  o_api_sd_first : bool;            (* a shutdown requested through the API took its snapshot before the project exit code was fixed *)
   (* the known check-then-act windows (known_findings.json); sticky *)
   w_commit : bool;   (* F20/F21: a stop concluded "not running" for an instance already committed to launch *)
   w_late : bool;     (* F26: a stop wrote Terminating after the instance had reached a terminal status *)
@@ -64,13 +64,17 @@ Record obs := mkObs {
   w_dup : bool;      (* F25: a second instance of a name was registered while an earlier one had not ended *)
   w_sdlag : bool;    (* F37: an instance committed to (re)launching after a shutdown/stop request but before its stop began *)
   w_zombie : bool;   (* F38: a new instance of a name was created while the goroutine of an ended one still lives *)
-  w_stale : bool }.  (* F32: a stop did nothing on an instance that is still waiting for its dependencies *)    (* instances registered by an explicit start request after the last completed shutdown *)
+  w_stale : bool;    (* F32: a stop did nothing on an instance that is still waiting for its dependencies *)
+  (* is the project exit code already fixed (exitCodeOnce.Do has run)?  It directly follows the exit_trigger
+     trace point, so it has run as soon as a goroutine that logged exit_trigger logs anything else *)
+  o_trig_th : list tid;             (* goroutines that have logged an exit_trigger *)
+  o_code_fixed : bool }.            (* ... and one of them has moved on since (resume / shutdown_call / exit_code_set); sticky *)    (* instances registered by an explicit start request after the last completed shutdown *)
 #[export] Instance eta_obs : Settable _ :=
-  settable! mkObs <oi; onm; o_cnt; o_th; o_api; o_sd_done; o_sd_snap; o_sd_cur; o_triggers; o_run_ret; o_after_sd_spawn; o_stopstage; o_stopinst; o_instop; o_spawning; o_api_sd_first; w_commit; w_late; w_sdspawn; w_dup; w_sdlag; w_zombie; w_stale>.
+  settable! mkObs <oi; onm; o_cnt; o_th; o_api; o_sd_done; o_sd_snap; o_sd_cur; o_triggers; o_run_ret; o_after_sd_spawn; o_stopstage; o_stopinst; o_instop; o_spawning; o_api_sd_first; w_commit; w_late; w_sdspawn; w_dup; w_sdlag; w_zombie; w_stale; o_trig_th; o_code_fixed>.
 
 Definition obs0 (cs : amap pconf) : obs :=
   mkObs [] (map (fun p => (fst p, mkON (if deferred (snd p) then SDisabled else SPending) 0 false 0)) cs)
-        0 [] [] 0 [] [] [] None [] [] [] [] false false false false false false false false false.
+        0 [] [] 0 [] [] [] None [] [] [] [] false false false false false false false false false [] false.
 
 Definition oi_get (o : obs) (i : iid) : oinst :=
   match get i (oi o) with Some x => x
@@ -178,7 +182,7 @@ Definition obs_step (cs : amap pconf) (o : obs) (te : tid * event) : obs :=
         let o := fold_left (fun o i => oi_upd i (fun x => x <| o_stopreq := true |> <| o_insnap := true |>) o) order o in
         let by_api := match get th (o_th o) with None => true | Some _ => false end in
         o <| o_sd_cur := set th order (o_sd_cur o) |>
-          <| o_api_sd_first := o_api_sd_first o || (by_api && match o_triggers o with [] => true | _ => false end) |>
+          <| o_api_sd_first := o_api_sd_first o || (by_api && negb (o_code_fixed o)) |>
     | EShutdownEnd, _ =>
         let snap := match get th (o_sd_cur o) with Some l => l | None => [] end in
         o <| o_sd_done := S (o_sd_done o) |> <| o_sd_snap := snap ++ o_sd_snap o |> <| o_sd_cur := del th (o_sd_cur o) |>
@@ -187,6 +191,10 @@ Definition obs_step (cs : amap pconf) (o : obs) (te : tid * event) : obs :=
         on_upd (o_nm (oi_get o i)) (fun r => r <| r_ready := true |>) (oi_upd i (fun x => x <| o_logok := true |>) o)
     | EProbe i true false, _ => on_upd (o_nm (oi_get o i)) (fun r => r <| r_ready := true |>) o
     | EExitTrigger c, Some i => o <| o_triggers := o_triggers o ++ [(i, c, o_sd_victim (oi_get o i))] |>
+                                  <| o_trig_th := th :: o_trig_th o |>
+    | EResume, _ | EShutdownCall, _ | EExitCodeSet _, _ =>
+        (* what a triggering goroutine logs next: exitCodeOnce.Do lies behind it *)
+        o <| o_code_fixed := o_code_fixed o || memN th (o_trig_th o) |>
     | ERunReturn c, _ => o <| o_run_ret := Some c |>
     | _, _ => o
     end in
